@@ -30,6 +30,7 @@ type Engine struct {
 	assumptions  map[string]bool      // assumptions used in this run (for evidence)
 	verifDir     string
 	globalStored map[*ssa.Global]bool
+	srcLines     map[string][]string
 }
 
 func NewEngine(p *Program, verifDir string) (*Engine, error) {
